@@ -525,7 +525,24 @@ def run_check(tier, seed, t0):
     # validate the cache event streams with TLC
     acc, rej, verr = (set(), {}, None)
     if cache_traces:
-        acc, rej, verr = relation.validate(cache_traces, spec="TraceCache")
+        # one TLC run per chunk of <= 150k events (the JSON of a whole thorough run does not
+        # fit TLC's heap); chunks are validated in parallel
+        chunks, cur, n_ev = [], [], 0
+        for t in cache_traces:
+            if cur and n_ev + len(t["ev"]) > 150000:
+                chunks.append(cur)
+                cur, n_ev = [], 0
+            cur.append(t)
+            n_ev += len(t["ev"])
+        if cur:
+            chunks.append(cur)
+        from concurrent.futures import ThreadPoolExecutor
+        with ThreadPoolExecutor(max_workers=min(6, len(chunks))) as ex:
+            outs = list(ex.map(lambda c: relation.validate(c, spec="TraceCache"), chunks))
+        for a_, r_, e_ in outs:
+            acc |= a_
+            rej.update(r_)
+            verr = verr or e_
         if verr:
             print("MACHINERY-ERROR: TraceCache validation: %s" % verr, file=sys.stderr)
             return 2
